@@ -66,6 +66,7 @@ class Ctx:
         self.vars = {}                # name -> z3 var
         self.bounds = {}              # z3 var id -> [lo, hi] from unit facts (interval fast path)
         self.choices = {}             # name -> value (picks by value, raw choices by index)
+        self.no_validation = False    # set by harnesses whose symbolic world differs from the real one by design
         self.found = []               # violations found on this path: (label, model values, observables)
         self.obs = []                 # (name, value) observables for differential validation
         self.path_reached = set()
@@ -164,6 +165,10 @@ class Ctx:
             return
         for l, b in live:
             self.claim(l, b)
+
+    def skip_validation(self):
+        """the path ran in a deliberately altered world (shrunk port universe): no per-path comparison with the real run"""
+        self.no_validation = True
 
     def reach(self, label):
         self.path_reached.add(label)
@@ -368,6 +373,9 @@ class CCtx:
 
     symbolic = False
     twin = False
+
+    def skip_validation(self):
+        pass
 
     def __init__(self, values, choices, tier="quick"):
         self.values, self.choice_values = values, choices
